@@ -9,8 +9,11 @@ import (
 	"fmt"
 	"go/token"
 	"go/types"
+	"strings"
 
 	"golang.org/x/tools/go/ssa"
+
+	"wucheck/core"
 )
 
 type aval struct {
@@ -126,6 +129,17 @@ func (e *optEval) eval(v ssa.Value, env map[ssa.Value]aval) aval {
 		in := e.eval(x.X, env)
 		if in.kind == "struct" {
 			return aval{kind: "structfield", v: x, env: in.env}
+		}
+		if in.kind == "field" {
+			// a field of a struct of the module that the options hold by value: an option field in its own right
+			if _, isStruct := structOf(x.X.Type()); isStruct && strings.HasPrefix(typePkgPath(x.X.Type()), core.ModPath) {
+				el := fieldElem(x.X.Type(), x.Field)
+				for i := 0; i < len(el); i++ {
+					if el[i] == ':' {
+						return aval{kind: "field", typ: in.typ, name: el[i+1:]}
+					}
+				}
+			}
 		}
 		if in.kind == "opt" {
 			el := fieldElem(x.X.Type(), x.Field)
